@@ -14,8 +14,8 @@ import ast
 from .. import astutil as A
 from ..fa import FA
 from ..loader import AnalysisError
-from .c15 import (FRAME, absent_edges, alias_text, batch_seqs, body_starts, call_batch_dispatch, enclosing_position, expand_alias, heads_of,
-                  is_calling_frame, iteration_counts, nfa, normal_form, not_edges, origins, position_loops, pushes, result_loops, result_name, sense, under)
+from .c15 import (FRAME, absent_edges, none_test, alias_text, batch_seqs, body_starts, call_batch_dispatch, enclosing_position, expand_alias, heads_of,
+                  is_calling_frame, iteration_counts, nfa, normal_form, not_edges, origins, position_loops, presence_atom, pushes, rebinds_local, choose, unwrap_copy, result_loops, result_name, sense, under)
 
 RL = "runner_local"
 INV_LIST = ("invocation_metadata", "invocations")
@@ -77,7 +77,7 @@ def set_updates(fa):
             x = _single(c.args[0])
             out.append((fa.nodes(c), c.func.value, "elem" if x is not None else "union", x if x is not None else c.args[0]))
     for s in fa.stmts(ast.AugAssign):
-        if isinstance(s.op, ast.BitOr) and fa.nodes(s):
+        if isinstance(s.op, ast.BitOr) and fa.nodes(s) and not rebinds_local(fa, s):
             x = _single(s.value)
             out.append((fa.nodes(s), s.target, "elem" if x is not None else "union", x if x is not None else s.value))
     # `for x in T: s.add(x)` (on every iteration, x being the loop's own variable)  ==  s |= T
@@ -90,7 +90,7 @@ def set_updates(fa):
             heads = heads_of(fa, lp)
             skip, _twice = iteration_counts(fa, heads, ids)
             if not skip and heads:
-                looped.append((heads, r, "union", lp.iter))
+                looped.append((heads, r, "union", unwrap_copy(lp.iter)))
                 continue
         looped.append((ids, r, kind, x))
     out = looped
@@ -102,7 +102,7 @@ def set_updates(fa):
             parts = [q for p in parts for q in ((p.left, p.right) if isinstance(p, ast.BinOp) and isinstance(p.op, ast.BitOr) else (p,))]
         for p in parts:
             y = _single(p) if kind == "union" else None
-            flat.append((ids, r, "elem" if y is not None else kind, y if y is not None else p))
+            flat.append((ids, r, "elem" if y is not None else kind, y if y is not None else (unwrap_copy(p) if kind == "union" else p)))
     return flat
 
 
@@ -310,6 +310,12 @@ def _adoptions(rl, pushed):
     return out
 
 
+def _frame_memento_stores(rl, pushed):
+    """Assignments to `<pushed frame>.memento`."""
+    me = pushed + ".memento"
+    return [st for st in rl.stmts(ast.Assign) if rl.nodes(st) and any(isinstance(t, ast.Attribute) and rl.xnorm(t, rl.nodes(st)[0]) == me for t in st.targets)]
+
+
 def _escapes(fa, starts, sites, extra_removed, edge_ok, targets, include_start=True):
     """Can a path from `starts` reach one of `targets` without performing the whole propagation (every one of its
     parts at some site) and without passing `extra_removed`?  Returns the part index that can be skipped, or None."""
@@ -452,7 +458,7 @@ def deferred_written_out(ck, fi):
             if isinstance(st, ast.Expr) and isinstance(st.value, ast.Call) and isinstance(st.value.func, ast.Attribute) and st.value.func.attr == "callback" \
                     and isinstance(st.value.func.value, ast.Name) and st.value.func.value.id == S and st.value.args \
                     and not any(isinstance(a, ast.Starred) for a in st.value.args) and not any(k.arg is None for k in st.value.keywords) \
-                    and isinstance(st.value.args[0], (ast.Name, ast.Attribute)):
+                    and isinstance(st.value.args[0], (ast.Name, ast.Attribute, ast.Lambda)):
                 regs[id(st.value.func.value)] = i
         mentions = [n for n in _own_walk(node) if isinstance(n, ast.Name) and n.id == S]
         nested_mentions = [n for f in _own_walk(node) if isinstance(f, (ast.FunctionDef, ast.AsyncFunctionDef, ast.Lambda)) for n in ast.walk(f) if isinstance(n, ast.Name) and n.id == S]
@@ -481,6 +487,23 @@ def deferred_written_out(ck, fi):
             direct = copy.deepcopy(fcall)
             direct.func = copy.deepcopy(call.args[0])
             pre = [x for x in pre[1:] if x is not None]
+            if isinstance(direct.func, ast.Lambda):
+                # a lambda reads its free names when it runs, i.e. when the block is left — like a finally body does
+                from .c15 import _apply_lambda
+                body = _apply_lambda(direct.func, direct)
+                if body is not None:
+                    final = [ast.copy_location(ast.Expr(value=body), call)]
+                else:
+                    final[0].value.func = direct.func
+                try:
+                    final = Inliner(ck.repo).rewrite_list(final, fi, set(names), 0)
+                    names |= {n.id for x in final for n in ast.walk(x) if isinstance(n, ast.Name)}
+                except NotInlinable:
+                    pass
+                tr = ast.copy_location(ast.Try(body=w.body[i + 1:] or [ast.copy_location(ast.Pass(), call)], handlers=[], orelse=[], finalbody=final), w.body[i])
+                w.body[i:] = pre + [tr]
+                done = True
+                continue
             try:
                 inl = Inliner(ck.repo)
                 r = inl.resolve(direct, fi)
@@ -502,9 +525,22 @@ def deferred_written_out(ck, fi):
     return out
 
 
+def _stack_primitive(n):
+    """Non-raising in the sense of fa.log_call, plus `<stack>.depth()` (a len() of the frame list)."""
+    from ..fa import log_call
+    return log_call(n) or (isinstance(n, ast.Call) and isinstance(n.func, ast.Attribute) and n.func.attr == "depth" and not n.args and not n.keywords)
+
+
+def frame_fa(ck, fi, exc_mode=None):
+    from ..cfg import CFG
+    fa = FA(ck, fi, exc_mode=exc_mode)
+    fa._cfg = CFG(fa.node, fa.exc_mode, nonraising=_stack_primitive)
+    return fa
+
+
 def run_local_fa(ck):
     """memento_run_local as the frame rules read it (see deferred_written_out)."""
-    return FA(ck, normal_form(ck, deferred_written_out(ck, ck.fn(RL + ".memento_run_local"))))
+    return frame_fa(ck, normal_form(ck, deferred_written_out(ck, ck.fn(RL + ".memento_run_local"))))
 
 
 class FrameScope:
@@ -575,6 +611,104 @@ class FrameScope:
         return pushed.pop()
 
 
+class StackModel:
+    """What the call stack looks like at each point of a function that pushes its own frame and pops it again.
+    Before the push and after the pop the top of the stack is the CALLER's frame (or the stack is empty: a root call);
+    in between it is the function's own frame.  So
+
+      * `get_calling_frame()` evaluated before the push or after the pop denotes the caller's frame (None for a root
+        call), evaluated in between it denotes the own frame;
+      * `pop_frame()` (after the push) returns the own frame;
+      * `depth() > 1` in between, `depth() > 0` before / after, say "there is a caller".
+
+    Expressions are followed through locals to the call they come from and classified by where that call is evaluated."""
+
+    def __init__(self, fa, push_nodes, pop_nodes, own_ctor=None):
+        self.fa = fa
+        self.push, self.pop = set(push_nodes), set(pop_nodes)
+        self.own_ctor = own_ctor
+        self.after_push = fa.cfg.reach(sorted(self.push), include_start=False)
+        self._before_site = {}
+
+    def outside(self, n):
+        """Is node `n` evaluated while the own frame is not on the stack (no push yet, or popped since)?"""
+        return n not in self.pop and n not in self.push and \
+            all(n not in self.fa.cfg.reach([p], removed=self.pop, include_start=False) for p in self.push)
+
+    def inside(self, n):
+        """... while the own frame is on the stack (after the push, not after a pop)?"""
+        return self.fa.cfg.must_pass(self.push, n) and not any(n in self.fa.cfg.reach([q], include_start=False) for q in self.pop if q != n)
+
+    def _is_stack(self, e, n):
+        return e is not None and self.fa.xnorm(e, n) == "CallStack.get()"
+
+    def leaves(self, e, n):
+        return [(x, m) for (x, m) in origins(self.fa, e, n) if not A.is_none(x)]
+
+    def caller_frame(self, e, n):
+        lv = self.leaves(e, n)
+        return bool(lv) and all(isinstance(x, ast.Call) and A.call_attr(x) == "get_calling_frame" and self._is_stack(A.call_recv(x), m) and self.outside(m)
+                                for (x, m) in lv)
+
+    def own_frame(self, e, n):
+        lv = self.leaves(e, n)
+        return bool(lv) and all((self.own_ctor is not None and x is self.own_ctor)
+                                or (isinstance(x, ast.Call) and A.call_attr(x) == "pop_frame" and self._is_stack(A.call_recv(x), m) and m in self.pop
+                                    and self.fa.cfg.must_pass(self.push, m)) for (x, m) in lv)
+
+    def caller_memento(self, e, n):
+        """The caller's memento, or None when there is no caller."""
+        lv = self.leaves(e, n)
+        return bool(lv) and all(isinstance(x, ast.Attribute) and x.attr == "memento" and self.caller_frame(x.value, m) for (x, m) in lv)
+
+    def own_memento_reads(self, e, n):
+        """[(node where `<own frame>.memento` is read)] when `e` denotes the own frame's memento, else None."""
+        lv = self.leaves(e, n)
+        if lv and all(isinstance(x, ast.Attribute) and x.attr == "memento" and self.own_frame(x.value, m) for (x, m) in lv):
+            return [m for (_x, m) in lv]
+        return None
+
+    def has_caller(self, val):
+        """Atom: every test that says "there is a calling frame" has the value `val`."""
+        fa = self.fa
+
+        def depth_test(t, n):
+            # X.depth() <op> k
+            if isinstance(t, ast.Call) and A.call_attr(t) == "depth" and self._is_stack(A.call_recv(t), n):
+                return True if self.outside(n) else None     # truthy depth with the own frame off the stack
+            if isinstance(t, ast.Compare) and len(t.ops) == 1 and isinstance(t.left, ast.Call) and A.call_attr(t.left) == "depth" \
+                    and self._is_stack(A.call_recv(t.left), n) and isinstance(t.comparators[0], ast.Constant) and type(t.comparators[0].value) is int:
+                k, op = t.comparators[0].value, t.ops[0]
+                base = 0 if self.outside(n) else (1 if self.inside(n) else None)
+                if base is None:
+                    return None
+                if (isinstance(op, ast.Gt) and k == base) or (isinstance(op, ast.GtE) and k == base + 1) or (isinstance(op, ast.NotEq) and k == base):
+                    return True
+                if (isinstance(op, ast.LtE) and k == base) or (isinstance(op, ast.Lt) and k == base + 1) or (isinstance(op, ast.Eq) and k == base):
+                    return False
+            return None
+
+        def f(t, n):
+            if n is None:
+                return None
+            nt = none_test(t)
+            x, v = (nt[0], (not nt[1]) == val) if nt is not None else (t, val)
+            if isinstance(x, ast.NamedExpr):
+                x = x.value
+            if isinstance(x, (ast.Name, ast.Attribute, ast.Call)):
+                try:
+                    if self.caller_frame(x, n) or self.caller_memento(x, n):
+                        return v
+                except AnalysisError:
+                    pass
+            if nt is None:
+                d = depth_test(t, n)
+                if d is not None:
+                    return d == val
+            return None
+        return f
+
+
 def _r1_run_local(ck, R1):
     rl = run_local_fa(ck)
     sc = FrameScope(ck, rl)
@@ -582,8 +716,14 @@ def _r1_run_local(ck, R1):
     pop_nodes = fa.nodes_all(sc.pops)
     sites = prop_sites(fa)
     PUSHED = sc.pushed()
-    no_caller = absent_edges(fa, lambda e, n: sc.text(fa, e, n) == FRAME)
-    edge_ok = not_edges(no_caller)
+    model = None
+    if not sc.scoped:
+        own = [x for p_ in sc.pushes if p_.args and rl.nodes(p_) for (x, _n) in origins(rl, p_.args[0], rl.nodes(p_)[0])]
+        model = StackModel(rl, rl.nodes_all(sc.pushes), pop_nodes, own[0] if len(own) == 1 else None)
+        edge_ok = under(rl, model.has_caller(True), follow_exc=True)
+    else:
+        no_caller = absent_edges(fa, lambda e, n: sc.text(fa, e, n) == FRAME)
+        edge_ok = not_edges(no_caller)
     exits = [fa.cfg.exit, fa.cfg.raise_exit]
     bad = None
     for p in sc.starts:
@@ -594,22 +734,40 @@ def _r1_run_local(ck, R1):
           "every exit after the push propagates stack_frame.memento to the caller (if any)" if bad is None and sites else
           "memento_run_local can exit without propagating its memento to the calling frame", rl.where())
     lookups = {}
+    adopt_nodes = set(rl.nodes_all(_frame_memento_stores(rl, PUSHED)))
     for s in sites:
-        okc = s.caller is not None and isinstance(s.caller, ast.Attribute) and s.caller.attr == "memento" and sc.text(fa, s.caller.value, s.at) == FRAME \
-            and s.result is not None and sc.text(fa, s.result, s.at) == PUSHED + ".memento" and all(s.parts)
         # pop precedes the propagation
         okp = all(fa.cfg.must_pass(pop_nodes, i) for i in s.all_nodes())
-        ck.ob(R1, fa.key(s.anchor, "args"), okc and okp, "after the pop, stack_frame.memento is propagated into the new top frame" if okc and okp else
-              "propagation in memento_run_local does not pass (calling_frame.memento, stack_frame.memento) after the pop", fa.where(s.anchor))
-        # the caller is looked up after the pop: every get_calling_frame() the caller memento is computed from
+        if model is not None and not s.inline and s.caller_src is not None and s.result_src is not None:
+            # decided on what the expressions denote given where the stack operations they come from are evaluated
+            reads = model.own_memento_reads(s.result_src, s.at)
+            okc = model.caller_memento(s.caller_src, s.at) and reads is not None
+            # ... and the own frame's memento is read when it is final: no replacement of it between the read and here
+            here = set(s.all_nodes())
+            before = {i for i in rl.cfg.reachable_nodes() if here & rl.cfg.reach([i], include_start=False)} | here
+            okt = reads is not None and not any(adopt_nodes & before & rl.cfg.reach([m], include_start=False) for m in reads if m not in here)
+        else:
+            okc = s.caller is not None and isinstance(s.caller, ast.Attribute) and s.caller.attr == "memento" and sc.text(fa, s.caller.value, s.at) == FRAME \
+                and s.result is not None and sc.text(fa, s.result, s.at) == PUSHED + ".memento" and all(s.parts)
+            okt = True
+            if model is not None and s.result_src is not None:
+                reads = model.own_memento_reads(s.result_src, s.at)
+                here = set(s.all_nodes())
+                before = {i for i in rl.cfg.reachable_nodes() if here & rl.cfg.reach([i], include_start=False)} | here
+                okt = reads is None or not any(adopt_nodes & before & rl.cfg.reach([m], include_start=False) for m in reads if m not in here)
+        ck.ob(R1, fa.key(s.anchor, "args"), okc and okp and okt, "after the pop, stack_frame.memento is propagated into the new top frame" if okc and okp and okt else
+              ("propagation in memento_run_local does not pass (calling_frame.memento, stack_frame.memento) after the pop" if not (okc and okp) else
+               "the frame's memento is read before the served path may replace it: what propagates is the fresh record, not the stored one with its "
+               "dependency set"), fa.where(s.anchor))
+        # the caller is looked up while the own frame is not on the stack: every get_calling_frame() the caller memento is computed from
         if s.caller_src is not None:
             for i in s.part(0):
                 for (call, n) in feeding_calls(fa, s.caller_src, i, "get_calling_frame"):
                     ent = lookups.setdefault(id(call), [call, True])
-                    ent[1] = ent[1] and fa.cfg.must_pass(pop_nodes, n)
+                    ent[1] = ent[1] and (model.outside(n) if model is not None else fa.cfg.must_pass(pop_nodes, n))
     for (call, okq) in lookups.values():
-        ck.ob(R1, fa.key(call, "lookup-after-pop"), okq, "the caller is looked up after the own frame was popped" if okq else
-              "the calling frame is looked up before the own frame is popped: the function would propagate into itself", fa.where(call))
+        ck.ob(R1, fa.key(call, "lookup-after-pop"), okq, "the caller is looked up while the own frame is not on the stack" if okq else
+              "the calling frame is looked up while the own frame is on top of the stack: the function would propagate into itself", fa.where(call))
     # served path: the frame's memento is replaced by the stored memento before returning
     served = [r for r in rl.returns() if r.value is not None and rl.nodes(r) and "call:process_existing_memento" in rl.deps(r.value)]
     ck.need(served, "memento_run_local: no 'served from store' return found")
@@ -619,11 +777,14 @@ def _r1_run_local(ck, R1):
         return bool(lv) and all(isinstance(x, ast.Call) and A.call_attr(x) == "get_memento" and A.norm(A.call_recv(x)) == "storage_backend" for (x, _n) in lv)
     asg = [s for s in rl.stmts(ast.Assign) if rl.nodes(s) and any(isinstance(t, ast.Attribute) and rl.xnorm(t, rl.nodes(s)[0]) == PUSHED + ".memento" for t in s.targets)
            and stored(s.value, rl.nodes(s)[0]) and (sc.with_stmt is None or rl.inside(s, sc.with_stmt))]
+    an = rl.nodes_all(asg)
     for r in served:
-        oks = bool(asg) and all(rl.cfg.must_pass(rl.nodes_all(asg), i) for i in rl.nodes(r))
+        # where the served value is committed: the return itself, or the binding of the local that is returned later
+        commits = sorted({m for i in rl.nodes(r) for (x, m) in origins(rl, r.value, i) if "call:process_existing_memento" in rl.deps(x, m)}) or rl.nodes(r)
+        oks = bool(asg) and all(rl.cfg.must_pass(an, i) or rl.cfg.always_reaches(i, an, [rl.cfg.exit, rl.cfg.raise_exit]) for i in commits)
         if asg and not oks:
             # the replacement and the return may sit under two tests of the same condition
-            oks = consistent_walk(rl, rl.nodes(r), avoid=rl.nodes_all(asg)) == []
+            oks = consistent_walk(rl, commits, avoid=an) == []
         ck.ob(R1, rl.key(None, "served-memento-replaces"), oks, "the stored memento (with its stored dependency set) is what propagates" if oks else
               "a served result propagates the fresh, empty frame memento instead of the stored one: transitive dependencies are lost", rl.where(r))
     # ... and only then: while the invocation is (still going to be) computed, the frame's memento is the fresh record
@@ -661,14 +822,19 @@ def _r2(ck, R2):
         push_nodes = rl.nodes_all(pushes)
         pop_nodes = rl.nodes_all(sc.pops)
         exits = [rl.cfg.exit, rl.cfg.raise_exit]
-        okt = True
-        why = ""
-        for pc in pushes:
-            trys = [t for t in rl.stmts(ast.Try) if t.finalbody and any(rl.inside(pc, b) for b in t.body)]
-            has_pop = any(any(isinstance(n, ast.Call) and A.call_attr(n) == "pop_frame" for s in t.finalbody for n in A.walk_local(s)) for t in trys)
-            if not has_pop:
+        # the push is protected: once the frame is on the stack nothing that can fail — judged on the graph in which
+        # every call / subscript may raise — leads out of the function without passing a pop (a try whose finally pops
+        # and that starts right at the push, a push directly in front of such a try, a context manager / exit stack
+        # written out as one, a clean-up call in front of every exit and in a catch-all handler are all the same here)
+        rx = rl if rl.exc_mode == "all" else frame_fa(ck, rl.fi, exc_mode="all")
+        xpush = rx.nodes_all(rx.calls("push_frame"))
+        xpop = rx.nodes_all(rx.calls("pop_frame"))
+        okt = bool(xpush) and bool(xpop)
+        for p in xpush:
+            if {rx.cfg.exit, rx.cfg.raise_exit} & rx.cfg.reach([p], removed=xpop, include_start=False):
                 okt = False
-                why = "push_frame is not inside the try whose finally pops"
+        why = "push_frame is not inside the try whose finally pops"
+        ck.paths_enumerated += len(xpush)
         ck.ob(R2, rl.key(None, "push-in-try"), okt, "push is protected by try/finally-pop" if okt else why, rl.where(pushes[0]))
         leak = None
         for p in push_nodes:
@@ -888,7 +1054,13 @@ def _r4(ck, R4):
 def _r5(ck, R5):
     rf = nfa(ck, "resource_function.ResourceFunction.__call__")
     RES = FRAME + ".memento.invocation_metadata.resources"
-    apps = [pu for pu in pushes(rf) if alias_text(rf, pu.recv, rf.nodes(pu.node)[0]) == RES]
+    with_frame = presence_atom(is_calling_frame(rf), True)
+
+    def sink(pu):
+        # what is appended to when there is a calling frame (`frame.memento...resources if frame else []`)
+        e, n = choose(rf, pu.recv, rf.nodes(pu.node)[0], with_frame)
+        return alias_text(rf, e, n)
+    apps = [pu for pu in pushes(rf) if sink(pu) == RES]
     no_caller = absent_edges(rf, is_calling_frame(rf))
     rets = [r for r in rf.returns() if r.value is not None and rf.nodes(r)]
     okr = bool(apps) and bool(rets)
